@@ -816,6 +816,37 @@ impl<'a> Gen<'a> {
         }
     }
 
+    /// "Withhold" lie: NOT FOUND for the genesis certificate of the chain being walked, or for the
+    /// target of any link on the path of `start` (including the dangling `previous_hash`).
+    fn withhold_lie(&mut self, start: usize, at: Option<usize>) -> Lie {
+        let path = self.path(start);
+        let last = *path.last().unwrap();
+        let ends_in_genesis = self.ws.built[last].cert.is_genesis();
+        if ends_in_genesis && path.len() > 1 && at.is_none() && self.rng.chance(0.6) {
+            return Lie { on: LieOn::Hash(last), occ: None, answer: Answer::NotFound, kind: "withhold_genesis".into() };
+        }
+        let positions = path.len() + usize::from(!ends_in_genesis);
+        // position 0 is the start itself, not the target of a link
+        let pos = at.unwrap_or_else(|| self.rng.range(1, positions as u64 - 1) as usize).clamp(1, positions - 1);
+        if pos < path.len() {
+            let kind = if self.ws.built[path[pos]].cert.is_genesis() { "withhold_genesis" } else { "withhold_link_target" };
+            Lie { on: LieOn::Hash(path[pos]), occ: None, answer: Answer::NotFound, kind: kind.into() }
+        } else {
+            Lie { on: LieOn::PrevOf(last), occ: None, answer: Answer::NotFound, kind: "withhold_dangling_target".into() }
+        }
+    }
+
+    /// One third withhold, two thirds swap.
+    fn withhold_or_swap(&mut self, start: usize, at: Option<usize>) -> Lie {
+        if self.path(start).len() + usize::from(!self.ws.built[*self.path(start).last().unwrap()].cert.is_genesis()) >= 2
+            && self.rng.chance(1.0 / 3.0)
+        {
+            self.withhold_lie(start, at)
+        } else {
+            self.swap_lie(start, at)
+        }
+    }
+
     /// An internally consistent adversarial chain: 2-4 certificates over consecutive epochs, each
     /// with a valid multi-signature of an adversary signer set, correct hashes, and next-AVK /
     /// next-parameter hand-overs that are consistent among themselves. Returned bottom first.
@@ -899,7 +930,7 @@ impl<'a> Gen<'a> {
             let start = if self.rng.chance(0.65) { top } else { *self.rng.pick(&chain) };
             let path_len = self.path(start).len();
             let mut lies = Vec::new();
-            let mut note = format!("advchain[{n}] from {hang}: swap");
+            let mut note = format!("advchain[{n}] from {hang}: follow-up");
             for _ in 0..self.rng.range(1, 2) {
                 // anywhere on the path, with a preference for its lower end and the dangling link
                 let at = if self.rng.chance(0.6) {
@@ -907,7 +938,7 @@ impl<'a> Gen<'a> {
                 } else {
                     None
                 };
-                let l = self.swap_lie(start, at);
+                let l = self.withhold_or_swap(start, at);
                 note.push_str(&format!(" {}", l.kind));
                 lies.push(l);
             }
@@ -993,6 +1024,13 @@ impl<'a> Gen<'a> {
         }
         let subject = self.subject();
         self.push_call(subject, prev, vec![], &format!("adversarial genesis: {label}"));
+        // follow-up calls in the cache state the (rejected) first call left
+        for _ in 0..self.rng.range(0, 2) {
+            let l = self.withhold_or_swap(prev, None);
+            let note = format!("adversarial genesis: {label}: follow-up {}", l.kind);
+            let subject = if self.rng.chance(0.9) { Subject::Client } else { Subject::Common };
+            self.push_call(subject, prev, vec![l], &note);
+        }
     }
 
     fn move_rule_switch(&mut self) {
